@@ -48,7 +48,7 @@ var shims = map[string]*shim{
 	"time":         {"simtime", "dsim/shim/time", set("NewTimer", "AfterFunc", "After", "Sleep")},
 	"math/rand":    {"simrand", "dsim/shim/rand", set("Float64", "Float32", "Intn", "Int63n", "Int31n", "Int63", "Int")},
 	"math/rand/v2": {"simrand", "dsim/shim/rand", set("Float64", "Float32")},
-	"context":      {"simctx", "dsim/shim/context", set("WithCancel", "WithCancelCause", "WithTimeout", "WithDeadline", "WithTimeoutCause", "WithDeadlineCause")},
+	"context":      {"simctx", "dsim/shim/context", set("WithCancel", "WithCancelCause", "WithTimeout", "WithDeadline", "WithTimeoutCause", "WithDeadlineCause", "AfterFunc")},
 }
 
 type stats struct {
